@@ -97,7 +97,7 @@ def source(r):
 
 
 def plan(tier, seed):
-    n = 1200 if tier == "quick" else 16000
+    n = 1200 if tier == "quick" else 10000
     specs = [{"seed": seed, "chunk": i, "n": 40} for i in range(n // 40)]
     # sources that need slightly more than the compiler's 1024 rewrites: normally rejected for the budget (then not
     # judged); if a tree compiles them, the result must still be the hygienic one
